@@ -14,6 +14,7 @@ def make_wl(rng, k):
         opts["threads_hint"] = 1
     if k is not None and k % 4 == 2:
         spec["pre_ids"] = 1
+    spec["novel_gene_overlap"] = rng.choice([1, 2])
     if k is not None:
         spec["gene_naming"] = k % 3
         spec["drop_chr_annotation"] = 1 if k % 3 == 1 else 0
